@@ -17,6 +17,9 @@ import (
 
 const repoDir = "/repo"
 
+// shared harness files restricted to some packages (default: every non-analysis harness package)
+var sharedOnlyFor = map[string]map[string]bool{}
+
 var verifDir = "/verif"
 
 type loadResult struct {
@@ -71,6 +74,22 @@ func harnessOverlay(pkgRels []string, native bool) (map[string][]byte, error) {
 			return nil, fmt.Errorf("no harness file in %s", dir)
 		}
 		ov[filepath.Join(repoDir, rel, "zz_verif_vf_api.go")] = []byte(strings.Replace(string(api), "package PKG", "package "+pkgName, 1))
+		if strings.HasPrefix(rel, "generator/") {
+			shared, _ := os.ReadDir(filepath.Join(verifDir, "harness", "_shared"))
+			for _, e := range shared {
+				if !strings.HasSuffix(e.Name(), ".go.txt") {
+					continue
+				}
+				if only := sharedOnlyFor[e.Name()]; only != nil && !only[rel] {
+					continue
+				}
+				src, err := os.ReadFile(filepath.Join(verifDir, "harness", "_shared", e.Name()))
+				if err != nil {
+					return nil, err
+				}
+				ov[filepath.Join(repoDir, rel, "zz_verif_shared_"+strings.TrimSuffix(e.Name(), ".txt"))] = []byte(strings.Replace(string(src), "package PKG", "package "+pkgName, 1))
+			}
+		}
 		if native {
 			sort.Strings(funcs)
 			var sb strings.Builder
